@@ -33,6 +33,12 @@ def runTimeoutOp (inp out : Json) : Json :=
     else if !okT then some { prop := "C19", code := "not_within_d_plus_margin", detail := s!"step {i}: {elapsed} ms for d = {d} ms" }
     else none) ++
     -- the abandoned computation must not rewrite the caller's environment
+    -- a timely computation under Timeout runs with the caller's Context: same Args, Parts, Value, Dir
+    (if !jbool inp "ctxProbe" then [] else
+      (rows.filterMap (fun (i, (_, o)) =>
+        let saw := jstr (jget o "sawCtx")
+        if saw == "args=pos1,pos2|parts=a,b|value=val|dir=/tmp" then none
+        else some { prop := "C19", code := "timely_computation_sees_other_context", detail := s!"step {i}: the wrapped action saw {saw}" })).take 1) ++
     (if !jbool inp "envProbe" then [] else
       (rows.filterMap (fun (i, (_, o)) =>
         let saw := jstr (jget o "altSaw")
